@@ -15,6 +15,13 @@ func main() {
 		os.Exit(replay(f))
 	}
 	res := lib.NewResult("C18", f)
+	if e := os.Getenv("C18_WATCH"); e != "" { // development: "<seg full>,<seg every>,<time full>,<time every>"
+		fmt.Sscanf(e, "%d,%d,%d,%d", &segWatch.full, &segWatch.every, &timeWatch.full, &timeWatch.every)
+	} else if f.Thorough() {
+		segWatch.full, segWatch.every, timeWatch.full, timeWatch.every = 20000, 2, 20000, 8
+	} else {
+		segWatch.full, segWatch.every, timeWatch.full, timeWatch.every = 8000, 4, 2000, 32
+	}
 	drv, err := lib.StartDriver(f.Driver)
 	if err != nil {
 		lib.Fatal(err)
